@@ -442,11 +442,11 @@ func RunProd(e *bubble.Env, p ProdPlan, extraOpts ...kgo.Opt) *ProdObs {
 		return p.Topics[i]
 	}
 	var inflightProduce atomic.Int32 // produce requests on the wire without a response yet (approximation from the net)
-	e.Net.OnReq = func(ri *bubble.ReqInfo) {
+	e.Net.SetOnReq(func(ri *bubble.ReqInfo) {
 		if ri.Key == 0 {
 			inflightProduce.Add(1)
 		}
-	}
+	})
 	promise := func(rs *RecState) func(*kgo.Record, error) {
 		return func(r *kgo.Record, err error) {
 			n := o.Log.Add("promise", rs.ID, "", err, r.Offset, int64(r.Partition))
